@@ -111,7 +111,7 @@ fn dispatch(ctx: &Arc<Ctx>) -> &'static str {
             if ctx.prop == "C01" {
                 c02::run(ctx, c02::Mode::C01b);
             }
-            if ctx.prop == "C01" || ctx.prop == "C03" {
+            if ctx.prop == "C01" || ctx.prop == "C03" || ctx.prop == "C08" {
                 explorer::structured_points(ctx);
             }
             if ctx.prop == "C05" {
